@@ -17,6 +17,7 @@ EXPLANATION = (
     "walls of C03 and the structure of the optimality iteration (VPSC.OPT pack: split first, multiplier tolerance, "
     "dfdv, multiplier accumulation and freshness, stationarity of the block position, convergence loop) and COST.  "
     "Not decided: that the active-set search reaches the optimum (numerical algorithm)."
+    '  Also part of this check: the feasibility structure of the solver (VPSC.FEAS) and complete stub chains (C04.STUBCHAIN), which optimality presupposes.'
 )
 ASSUMPTIONS = ["VPSC with intact structure converges to the optimum of the separation QP (not decided statically)"]
 
